@@ -9,7 +9,7 @@ of batches per shard (empty ones included), merged in any bracketing with fresh 
 anywhere (`Agg.Expr`; `merge_states` over per-shard accumulators is the instance
 `Mergeable.sharded`) — the result equals the result of one accumulator fed the whole dataset, in
 merge order, as one batch.  Models: `Model/Agg/Rolling*.lean` (the repaired code, see
-known_findings.d/rolling.json F2, F3, F23).
+known_findings.d/rolling.json F2, F3, F25).
 
 Statistics are exact rationals with NaN = `none`; float rounding is outside the model.
 -/
